@@ -102,11 +102,11 @@ def step (ds : DS) (f : List String) : DS × String :=
     | some ds1 =>
       let L := nat! l; let sold := parseInt sold; let net := parseInt net
       let I := oracleI ds1.itab; let T := oracleT ds1.ttab
-      let out := match tokensForExactIn T L sold net, tokensForExactInFixed T L sold net with
-        | some t, some t18 =>
-          if [sold, sold + t, sold + t18].any (fun x => (lookupI ds1.itab x).isNone) then "oracle-missing"
-          else s!"{t} {cost I L sold (sold + t)} {t18} {cost I L sold (sold + t18)}"
-        | _, _ => "err"
+      let out := match tokensForExactIn T L sold net with
+        | some t =>
+          if [sold, sold + t].any (fun x => (lookupI ds1.itab x).isNone) then "oracle-missing"
+          else s!"{t} {cost I L sold (sold + t)}"
+        | none => "err"
       (ds, out)
   | "settle" :: rf :: [] =>
     let ok := match orc with | [x] => b! x | _ => true
